@@ -328,8 +328,14 @@ namespace bxdecay0 {
       double ref_p = std::sqrt(ref_momentum.x * ref_momentum.x +
                                ref_momentum.y * ref_momentum.y +
                                ref_momentum.z * ref_momentum.z);
-      double ref_theta = std::acos(ref_momentum.z / ref_p);
-      double ref_phi   = std::atan2(ref_momentum.y, ref_momentum.x);
+      // A target with null momentum (e.g. a 0 keV X-ray) has no direction:
+      // use the Z-axis as its reference direction rather than computing 0/0
+      double ref_theta = 0.0;
+      double ref_phi   = 0.0;
+      if (ref_p > 0.0) {
+        ref_theta = std::acos(ref_momentum.z / ref_p);
+        ref_phi   = std::atan2(ref_momentum.y, ref_momentum.x);
+      }
 
       // Randomize a new direction with respect to the cone axis.
       double phiC;
